@@ -1,5 +1,5 @@
 (* C15 - Encoding then decoding (and decoding then encoding) is the identity. *)
-From Ctap Require Import Base Schema Wire Utf8 Typed WellTyped Procs Inst Tables Limits WireP TypedP FramingP SerP RoundTripP ObSerRole ObDeRole ObEnvRt FnShapes Shapes ObShapeFilters Deps ObDeps.
+From Ctap Require Import Base Schema Wire Utf8 Typed WellTyped Procs Inst Tables Limits WireP TypedP FramingP SerP RoundTripP ObSerRole ObDeRole ObEnvRt FnShapes Shapes ObShapeFilters Deps ObDeps ObShapeRequest ObShapeStrings ObShapeResponse.
 Local Open Scope string_scope.
 Local Open Scope Z_scope.
 
@@ -118,6 +118,14 @@ Proof. exact generated_shapes_filters. Qed.
 Theorem c15_modelled_dependencies_pinned : deps_hold lock_versions cargo_deps = true.
 Proof. exact generated_deps. Qed.
 
+(* further hand-modelled functions this property rests on *)
+Theorem c15_modelled_functions_unchanged_request : shapes_hold fn_shapes shapes_request = true.
+Proof. exact generated_shapes_request. Qed.
+Theorem c15_modelled_functions_unchanged_strings : shapes_hold fn_shapes shapes_strings = true.
+Proof. exact generated_shapes_strings. Qed.
+Theorem c15_modelled_functions_unchanged_response : shapes_hold fn_shapes shapes_response = true.
+Proof. exact generated_shapes_response. Qed.
+
 Eval vm_compute in "ASSUMPTIONS c15_bidirectional_set". Print Assumptions c15_bidirectional_set.
 Eval vm_compute in "ASSUMPTIONS c15_generated_ser". Print Assumptions c15_generated_ser.
 Eval vm_compute in "ASSUMPTIONS c15_generated_de". Print Assumptions c15_generated_de.
@@ -136,3 +144,6 @@ Eval vm_compute in "ASSUMPTIONS c15_roundtrip_all_features". Print Assumptions c
 Eval vm_compute in "ASSUMPTIONS c15_example_in_domain". Print Assumptions c15_example_in_domain.
 Eval vm_compute in "ASSUMPTIONS c15_modelled_functions_unchanged_filters". Print Assumptions c15_modelled_functions_unchanged_filters.
 Eval vm_compute in "ASSUMPTIONS c15_modelled_dependencies_pinned". Print Assumptions c15_modelled_dependencies_pinned.
+Eval vm_compute in "ASSUMPTIONS c15_modelled_functions_unchanged_request". Print Assumptions c15_modelled_functions_unchanged_request.
+Eval vm_compute in "ASSUMPTIONS c15_modelled_functions_unchanged_strings". Print Assumptions c15_modelled_functions_unchanged_strings.
+Eval vm_compute in "ASSUMPTIONS c15_modelled_functions_unchanged_response". Print Assumptions c15_modelled_functions_unchanged_response.
